@@ -29,8 +29,13 @@ func checkC15(r *Run) {
 				continue
 			}
 			switch {
-			case s.S == "local:complit.decode[i] := -1" && strings.HasPrefix(ff.loopSpace(lp), "i < len(") || s.S == "local:complit.decode[i] := -1" && ff.loopSpace(lp) == "i < 128":
-				reset = true
+			case s.S == "local:complit.decode[i] := -1":
+				// the loop ranges over the whole table, whatever its size
+				if ia, ok := s.In.(*ssa.Store).Addr.(*ssa.IndexAddr); ok {
+					if arr, ok := derefArray(ia.X.Type()); ok && (ff.loopSpace(lp) == fmt.Sprintf("i < %d", arr.Len()) || strings.HasPrefix(ff.loopSpace(lp), "i < len(")) {
+						reset = true
+					}
+				}
 			case s.S == "local:complit.decode[local:complit.encode[i]] := int8(i)":
 				inv = true
 			}
